@@ -67,3 +67,10 @@ Print Assumptions C09_cpp_complete_before_body.
 Theorem C09_cpp_decl_names_declared : forall e t, decl_names_ok e t = true.
 Proof. exact cpp_decl_names_declared. Qed.
 Print Assumptions C09_cpp_decl_names_declared.
+
+(* ... and the fuel never runs out: with every mentioned type below n, n + 1 levels of includes suffice *)
+Theorem C09_cpp_complete_before_body_total : forall e fd n t,
+  (forall x, depth_le e fd x = true) -> wf_env e n -> t < n ->
+  declared_before_use (fst (hpp_events e (S fd) (S n) t)) = true.
+Proof. exact cpp_complete_before_body_total. Qed.
+Print Assumptions C09_cpp_complete_before_body_total.
